@@ -186,8 +186,78 @@ func goEnv() []string {
 
 // selfTest applies each breakage to a scratch copy of the current tree and
 // requires the quick check to fire and to name the broken instance.
+// scopeDirs: the source directories (packages) the rules of this property can
+// depend on: the packages of every function reachable from the functions the
+// rules anchored on.  Properties whose rules scan the whole module get nil
+// (= everything).
+func scopeDirs(e *Env) map[string]bool {
+	switch e.R.Prop {
+	case "C04", "C10", "C18", "C19", "C20":
+		return nil
+	}
+	anchors := e.P.Looked()
+	if len(anchors) == 0 {
+		return nil
+	}
+	reach := e.P.Reachable(e.P.VTA(), anchors...)
+	for _, a := range anchors {
+		reach[a] = true
+	}
+	dirs := map[string]bool{}
+	for fn := range reach {
+		if !e.P.InModule(fn) || !fn.Pos().IsValid() {
+			continue
+		}
+		f := strings.TrimPrefix(e.P.Fset.Position(fn.Pos()).Filename, e.P.RepoDir+"/")
+		dirs[filepath.Dir(f)] = true
+	}
+	return dirs
+}
+
+// patchDirs: the directories of the files a unified diff touches.
+func patchDirs(path string) []string {
+	b, err := os.ReadFile(path)
+	if err != nil {
+		return nil
+	}
+	var out []string
+	for _, l := range strings.Split(string(b), "\n") {
+		if strings.HasPrefix(l, "+++ ") {
+			f := strings.Fields(strings.TrimPrefix(l, "+++ "))
+			if len(f) > 0 {
+				name := strings.TrimPrefix(f[0], "b/")
+				out = append(out, filepath.Dir(name))
+			}
+		}
+	}
+	return out
+}
+
 func selfTest(e *Env) {
 	ms := loadMutants(e.Verif, e.R.Prop)
+	// a behaviour-preserving edit outside every package this property's rules
+	// can depend on cannot change the verdict: not replayed
+	if dirs := scopeDirs(e); dirs != nil {
+		var kept []mutant
+		skipped := 0
+		for _, m := range ms {
+			if m.Benign {
+				touches := false
+				for _, d := range patchDirs(m.Patch) {
+					if dirs[d] {
+						touches = true
+					}
+				}
+				if !touches {
+					skipped++
+					continue
+				}
+			}
+			kept = append(kept, m)
+		}
+		ms = kept
+		e.R.Counts["selftest_benign_out_of_scope"] = skipped
+	}
 	self, err := os.Executable()
 	if err != nil || len(ms) == 0 {
 		e.R.Extra["selftest"] = "no seeded breakages for this property"
@@ -231,12 +301,14 @@ func selfTest(e *Env) {
 				}
 				os.WriteFile(p, []byte(strings.Replace(string(b), ed.Old, ed.New, 1)), 0o644)
 			}
-			bc := exec.Command("go", "build", "./...")
-			bc.Dir = scratch
-			bc.Env = goEnv()
-			if out, err := bc.CombinedOutput(); err != nil {
-				results[i] = res{m.ID, "SKIP", "mutant does not compile on the current tree: " + lastLine(string(out))}
-				return
+			if !m.Benign { // (a benign edit that does not type-check any more shows up as a load failure of the check)
+				bc := exec.Command("go", "build", "./...")
+				bc.Dir = scratch
+				bc.Env = goEnv()
+				if out, err := bc.CombinedOutput(); err != nil {
+					results[i] = res{m.ID, "SKIP", "mutant does not compile on the current tree: " + lastLine(string(out))}
+					return
+				}
 			}
 			vdir := filepath.Join(tmp, "verif")
 			os.MkdirAll(vdir, 0o755)
